@@ -10,6 +10,7 @@ RULE = ('cases = random steering vectors and Hermitian positive definite PSDs (c
         'get_mvdr_vector (distortionless + no distortionless competitor has less noise power, single bins and stacks), get_lcmv_vector '
         '(all constraints), Souden MVDR / WMWF on rank-one targets against closed forms, scaling invariances, mu = 0, automatic reference '
         'channel against the recomputed criterion; non-trivial = F > 1 or stacked sources, condition number > 10; distinct by (lane, D, F, K, cond decade)')
+REACH_REQUIRED = {'automatic reference channel': ('extraction/beamformer.py', r'return np\.argmax\(SNR\.real\)')}
 DECIDING = ['C11.mvdr', 'C11.lcmv', 'C11.souden', 'C11.wmwf', 'C11.refchannel']
 MIN_DECIDED = {'quick': 300, 'thorough': 3000}
 ARM = ()
